@@ -50,12 +50,21 @@ type loopInfo struct {
 	head    *State // state at header after havoc + invariants
 	variant []string
 	frames  []loopFrame
+	cellInv []loopCellInv
 }
 
 type loopFrame struct {
 	key    string
 	stable []string
 	pre    string
+	top    string
+}
+
+// loopCellInv: a slice variable that the loop only ever appends to refers either to
+// the array it referred to at loop entry or to one allocated during the loop.
+type loopCellInv struct {
+	cell   *Cell
+	preRef string
 	top    string
 }
 
@@ -338,6 +347,9 @@ func (e *Engine) enterLoop(fr *Frame, li *loopInfo, st *State) *State {
 		for c := range ws.cells {
 			ws2.cells[c] = true
 		}
+		for c := range ws.nonAppend {
+			ws2.nonAppend[c] = true
+		}
 		for g := range ws.globals {
 			ws2.globals[g] = true
 		}
@@ -366,7 +378,32 @@ func (e *Engine) enterLoop(fr *Frame, li *loopInfo, st *State) *State {
 	// automatic frame invariant: objects that existed before the loop and are not
 	// written through a loop-invariant reference keep their contents
 	li.frames = nil
-	if e.fc != nil && e.fc.HasAssigns && !e.fc.AssignsAll && !ws.all && mark >= 0 {
+	li.cellInv = nil
+	framesOK := true
+	for c := range ws.cells {
+		pv, ok := li.pre.cells[c]
+		if !ok || pv.K != KSlice {
+			continue
+		}
+		if ws.nonAppend[c] {
+			framesOK = false // reassigned from elsewhere: no automatic frame for this loop
+		}
+	}
+	if framesOK && e.fc != nil && e.fc.HasAssigns && !e.fc.AssignsAll && !ws.all && mark >= 0 {
+		for c := range ws.cells {
+			pv, ok := li.pre.cells[c]
+			if !ok || pv.K != KSlice {
+				continue
+			}
+			if cur, live := h.cells[c]; live && cur.K == KSlice {
+				ci := loopCellInv{cell: c, preRef: pv.Fs[0].T, top: li.pre.top}
+				li.cellInv = append(li.cellInv, ci)
+				e.ctx.Assume(implies(h.pc, or(eq(cur.Fs[0].T, ci.preRef), sx(">", cur.Fs[0].T, ci.top))))
+			}
+		}
+		sort.Slice(li.cellInv, func(i, j int) bool { return li.cellInv[i].cell.ID < li.cellInv[j].cell.ID })
+	}
+	if framesOK && e.fc != nil && e.fc.HasAssigns && !e.fc.AssignsAll && !ws.all && mark >= 0 {
 		var keys []string
 		for k, hw := range ws.heap {
 			if hw.whole && !strings.HasPrefix(k, "B$") {
@@ -375,10 +412,17 @@ func (e *Engine) enterLoop(fr *Frame, li *loopInfo, st *State) *State {
 		}
 		sort.Strings(keys)
 		for _, k := range keys {
-			lf := loopFrame{key: k, pre: e.heapTerm(li.pre, k, e.heapSorts[k]), top: e.entryTop}
+			lf := loopFrame{key: k, pre: e.heapTerm(li.pre, k, e.heapSorts[k]), top: li.pre.top}
 			for r := range ws.heap[k].refs {
 				if maxID(r) <= mark {
 					lf.stable = append(lf.stable, r)
+				}
+			}
+			// objects reachable through loop-modified local variables at loop entry may
+			// be written in place (append): they are not covered by the frame either
+			for c := range ws.cells {
+				if v, ok := li.pre.cells[c]; ok {
+					lf.stable = append(lf.stable, refTerms(v)...)
 				}
 			}
 			sort.Strings(lf.stable)
@@ -445,6 +489,11 @@ func (e *Engine) closeLoop(fr *Frame, li *loopInfo, st *State) {
 	for i, inv := range invs {
 		g := e.evalBool(inv.Expr, e.envAt(fr, st, li))
 		e.oblige(st, fr.label+fmt.Sprintf("inv-preserved/%d.%d", li.ordinal, i+1), g, inv.Pos, "loop invariant preserved: "+inv.Src, inv.Tags)
+	}
+	for _, ci := range li.cellInv {
+		if cur, live := st.cells[ci.cell]; live && cur.K == KSlice {
+			e.oblige(st, fr.label+fmt.Sprintf("inv-frame/%d/var:%s", li.ordinal, ci.cell.Name), or(eq(cur.Fs[0].T, ci.preRef), sx(">", cur.Fs[0].T, ci.top)), "", "loop frame: slice variable "+ci.cell.Name+" still refers to its array at loop entry or to one allocated in the loop", nil)
+		}
 	}
 	for _, lf := range li.frames {
 		r := e.ctx.Declare("fr", "Int")
@@ -979,6 +1028,12 @@ func (e *Engine) storePtr(st *State, p *Ptr, v Val) {
 		st.cells[p.Cell] = setPath(old, p.Path, v)
 		c := p.Cell
 		e.record(func(w *WriteSet) { w.cells[c] = true })
+		if v.K == KSlice && old.K == KSlice && len(p.Path) == 0 {
+			nr, or_ := v.Fs[0].T, old.Fs[0].T
+			if !(nr == or_ || v.AppOf == or_ || v.Fresh || nr == "0") {
+				e.record(func(w *WriteSet) { w.nonAppend[c] = true })
+			}
+		}
 	case PHeap:
 		if len(p.Path) == 0 {
 			s := under(p.Struct).(*types.Struct)
@@ -1188,7 +1243,7 @@ func (e *Engine) makeSlice(fr *Frame, st *State, ins *ssa.MakeSlice) Val {
 		m := e.heapTerm(st, name, sortM)
 		e.heapSet(st, name, sortM, r, sx("store", m, r, zeroTerm("(Array Int "+c.Sort+")")))
 	}
-	return Val{K: KSlice, Typ: ins.Type(), Fs: []Val{intv(r), intv("0"), intv(ln), intv(cp)}}
+	return Val{K: KSlice, Typ: ins.Type(), Fs: []Val{intv(r), intv("0"), intv(ln), intv(cp)}, Fresh: true}
 }
 
 // sentinelFacts: a package-level interface variable that is assigned only in its
@@ -1308,4 +1363,74 @@ func topLevelArgs(body string) []string {
 		}
 	}
 	return out
+}
+
+// refTerms lists the object references held directly in a value.
+func refTerms(v Val) []string {
+	switch v.K {
+	case KSlice:
+		return []string{v.Fs[0].T}
+	case KIface:
+		return []string{v.Fs[1].T}
+	case KScalar:
+		if v.Sort == "Int" && v.Typ != nil {
+			switch under(v.Typ).(type) {
+			case *types.Pointer, *types.Map:
+				return []string{v.T}
+			}
+		}
+	case KStruct:
+		var out []string
+		for _, f := range v.Fs {
+			out = append(out, refTerms(f)...)
+		}
+		return out
+	}
+	return nil
+}
+
+// appendOnly: every store to the cell inside the loop assigns append(cell, ...),
+// a fresh make/conversion, or nil.
+func appendOnly(fr *Frame, li *loopInfo, c *Cell) bool {
+	var alloc *ssa.Alloc
+	for a, cc := range fr.cells {
+		if cc == c {
+			alloc = a
+		}
+	}
+	if alloc == nil {
+		return false // belongs to another frame (captured variable)
+	}
+	for b := range li.blocks {
+		for _, ins := range b.Instrs {
+			st, ok := ins.(*ssa.Store)
+			if !ok || st.Addr != ssa.Value(alloc) {
+				continue
+			}
+			switch v := st.Val.(type) {
+			case *ssa.Call:
+				if bi, ok := v.Call.Value.(*ssa.Builtin); ok && bi.Name() == "append" {
+					if ld, ok := v.Call.Args[0].(*ssa.UnOp); ok && ld.X == ssa.Value(alloc) {
+						continue
+					}
+					if sl, ok := v.Call.Args[0].(*ssa.Slice); ok {
+						if ld, ok := sl.X.(*ssa.UnOp); ok && ld.X == ssa.Value(alloc) {
+							continue
+						}
+					}
+				}
+				return false
+			case *ssa.MakeSlice, *ssa.Convert:
+				continue
+			case *ssa.Const:
+				if v.Value == nil {
+					continue
+				}
+				return false
+			default:
+				return false
+			}
+		}
+	}
+	return true
 }
